@@ -187,6 +187,16 @@ def run(tier):
             jobs.append(dict(groups=[g], options=[], api="NR", cdefs=[], flex_args=[tb, "-8"], knobs={"VF_BUFSIZES": "0"},
                              tag="packer%s/%s" % (tb, g.label.split(":")[1]), point=(tb, 0, 8, "-B", 0, "NR", 0), driver_args=["-H", "4000"],
                              packer=True))
+    # wide tables: scanners whose yy_nxt/yy_chk (no equivalence classes, many sparse states) and whose yy_acclist (REJECT tables, many rules
+    # per accepting state) outgrow 16 bits while the number of states does not - the entries of yy_base and yy_accept index into those tables
+    wide = packer_groups(40 if quick else 90, start=1000)
+    jobs.append(dict(groups=wide, options=[], api="NR", cdefs=[], flex_args=["-C", "-8"], knobs={"VF_BUFSIZES": "0"}, tag="wide-nxt/-C",
+                     point=("-C", 0, 8, "-B", 0, "NR", 0), driver_args=["-H", "4000"], wide="yy_nxt"))
+    lo = R.cset(b"abcdefghijklmnopqrstuvwxyz")
+    wr = [H.Rule(R.plus(lo), scs=["WA"]) for _ in range(300)] + [H.Rule(R.cat(R.rep(lo, k, k), R.lit(ord("0"))), scs=["WA"]) for k in range(1, 120)]
+    wex = [b"a" * k for k in (1, 2, 3, 50, 100, 109, 110, 111, 118, 119, 120, 121, 130)] + [b"b" * k + b"0" for k in (1, 60, 108, 109, 110, 119, 120)] + [b"ab0c", b"0", b"a0a0"]
+    jobs.append(dict(groups=[H.Group([("WA", True)], wr, "WA", b"a0", 3, wex, label="wide:acclist")], options=["reject"], api="NR", cdefs=[], flex_args=["-8"],
+                     knobs={"VF_BUFSIZES": "0"}, tag="wide-acclist/reject", point=("-Cem", 0, 8, "-B", 0, "NR", 0), driver_args=["-H", "4000"], wide="yy_acclist"))
     ran = refused_ok = 0
     execs = nontriv = 0
     cfg_behaving = set()
@@ -223,6 +233,12 @@ def run(tier):
             ck.violation("C02:driver-crash:" + tag, "scanner died in %s (rc=%s): %s" % (tag, res["rc"], (res["hard_error"] or res["stderr"])[-300:]),
                          files={"s.l": res.get("spec", ""), "s_tables.h": res.get("tables", "")}, case={"stderr": res["stderr"], "flex_args": job["flex_args"]})
             continue
+        if job.get("wide"):
+            import re as _re
+            m = _re.search(r"%s\[(\d+)\]" % job["wide"], res.get("scanner_head", "") or "")
+            size = int(m.group(1)) if m else -1
+            ck.cov["wide_%s_entries" % job["wide"]] = size
+            ck.guard(size > 32767, "the wide-table scanner %s has only %d %s entries" % (tag, size, job["wide"]))
         ran += 1
         execs += sm["executions"]
         nontriv += sm["nontrivial"]
